@@ -239,3 +239,83 @@ def proportion_blocks(B, env, cc, direction):
         [q[0][0], B.spec_tensor((env.R, cols.S), f01)],
         [B.spec_tensor((rows.S, env.C), f10), q[1][1]],
     ]
+
+
+# ---- C11 -------------------------------------------------------------------------------
+
+
+def positive_blocks(B, env, cc):
+    """weighted count of respondents with indicator +1 (members of the addends)"""
+    rows, cols, cnt = env.rows, env.cols, cc.counts
+    rd = B.rd
+
+    def f11(s, t):
+        return B.ite(
+            B.band(rows.is_diff(s), cols.is_diff(t)),
+            B.NaN(),
+            cols.pos_sum(t, lambda j: rows.pos_sum(s, lambda i: rd(cnt, i, j))),
+        )
+
+    return blocks_from(
+        B, env,
+        lambda i, j: rd(cnt, i, j),
+        lambda i, t: cols.pos_sum(t, lambda j: rd(cnt, i, j)),
+        lambda s, j: rows.pos_sum(s, lambda i: rd(cnt, i, j)),
+        f11,
+    )
+
+
+def negative_blocks(B, env, cc):
+    """weighted count of respondents with indicator -1 (members of the subtrahends)"""
+    rows, cols, cnt = env.rows, env.cols, cc.counts
+    rd = B.rd
+
+    def f11(s, t):
+        both = B.band(rows.is_diff(s), cols.is_diff(t))
+        col_neg = cols.neg_sum(t, lambda j: rows.pos_sum(s, lambda i: rd(cnt, i, j)))
+        row_neg = rows.neg_sum(s, lambda i: cols.pos_sum(t, lambda j: rd(cnt, i, j)))
+        return B.ite(both, B.NaN(), B.ite(cols.is_diff(t), col_neg, B.ite(rows.is_diff(s), row_neg, 0.0)))
+
+    return blocks_from(
+        B, env,
+        lambda i, j: 0.0,
+        lambda i, t: cols.neg_sum(t, lambda j: rd(cnt, i, j)),
+        lambda s, j: rows.neg_sum(s, lambda i: rd(cnt, i, j)),
+        f11,
+    )
+
+
+def variance_blocks(B, env, cc, direction):
+    """C11: Var of the +1/-1/0 indicator among the respondents of the base:
+    E[X^2] - E[X]^2 = (Np+Nn)/Nt - ((Np-Nn)/Nt)^2 ; NaN where the proportion or the base
+    is undefined."""
+    p = proportion_blocks(B, env, cc, direction)
+    Nt = {"row": row_base_blocks, "column": column_base_blocks, "table": table_base_blocks}[
+        direction
+    ](B, env, cc)
+    Np, Nn = positive_blocks(B, env, cc), negative_blocks(B, env, cc)
+
+    def cell(a, b):
+        def f(x, y):
+            np_, nn, nt = B.rd(Np[a][b], x, y), B.rd(Nn[a][b], x, y), B.rd(Nt[a][b], x, y)
+            pv = B.rd(p[a][b], x, y)
+            ex2 = (np_ + nn) / nt
+            ex = (np_ - nn) / nt
+            return B.ite(B.isnan(pv), B.NaN(), ex2 - ex * ex)
+
+        return f
+
+    return blocks_from(B, env, cell(0, 0), cell(0, 1), cell(1, 0), cell(1, 1))
+
+
+def stderr_blocks(B, env, cc, direction):
+    """C11: standard error = sqrt(variance / weighted base)"""
+    var = variance_blocks(B, env, cc, direction)
+    Nt = {"row": row_base_blocks, "column": column_base_blocks, "table": table_base_blocks}[
+        direction
+    ](B, env, cc)
+
+    def cell(a, b):
+        return lambda x, y: B.sqrt(B.rd(var[a][b], x, y) / B.rd(Nt[a][b], x, y))
+
+    return blocks_from(B, env, cell(0, 0), cell(0, 1), cell(1, 0), cell(1, 1))
